@@ -150,6 +150,20 @@ func (r *Reader) extractImage(name string, stream *core.Stream) (*PageImage, err
 
 // parseColorSpace parses a color space object and returns its name.
 func (r *Reader) parseColorSpace(obj core.Object) string {
+	return r.parseColorSpaceAt(obj, 0)
+}
+
+// maxColorSpaceDepth bounds the walk from an /Indexed colour space to its base.
+// The base of an Indexed space must not be Indexed itself, but a file can say
+// anything: [/Indexed 5 0 R 1 (ab)] as object 5 names itself as its base and
+// recursed until the stack was exhausted.
+const maxColorSpaceDepth = 8
+
+func (r *Reader) parseColorSpaceAt(obj core.Object, depth int) string {
+	if depth > maxColorSpaceDepth {
+		return "DeviceGray"
+	}
+
 	// Resolve if reference
 	resolved, err := r.Resolve(obj)
 	if err != nil {
@@ -166,7 +180,7 @@ func (r *Reader) parseColorSpace(obj core.Object) string {
 				csName := string(name)
 				// For Indexed, get the base color space
 				if csName == "Indexed" && len(v) > 1 {
-					return r.parseColorSpace(v[1])
+					return r.parseColorSpaceAt(v[1], depth+1)
 				}
 				// For ICCBased, try to determine the number of components
 				if csName == "ICCBased" && len(v) > 1 {
